@@ -1,6 +1,7 @@
 package main
 
 import (
+	"regexp"
 	"go/ast"
 	"go/constant"
 	"go/token"
@@ -244,6 +245,19 @@ func (c *FuncCtx) evalBinary(st *State, n *ast.BinaryExpr) Value {
 		}
 		return BoolV{Or(l, r)}
 	}
+	if n.Op == token.EQL || n.Op == token.NEQ {
+		if b, ok := c.typeOf(n.X).Underlying().(*types.Basic); ok && b.Info()&types.IsFloat != 0 {
+			// floating point is not modelled: the outcome of an (in)equality test between float
+			// expressions is an unknown boolean, the same one for the same source text (sound as long
+			// as the function does not assign to a float, which is checked)
+			c.noFloatAssign()
+			eq := Var(feqName(n.X, n.Y), SBool)
+			if n.Op == token.NEQ {
+				eq = Not(eq)
+			}
+			return BoolV{eq}
+		}
+	}
 	lv, rv := c.eval(st, n.X), c.eval(st, n.Y)
 	switch n.Op {
 	case token.EQL, token.NEQ:
@@ -395,6 +409,9 @@ func (c *FuncCtx) arith(st *State, op token.Token, a, b *Term, typ, rtyp types.T
 		if unsigned {
 			st.assume(And(Le(r, a), Le(r, b)))
 		}
+		for _, f := range bitTableFacts("bvand", a, b, r) {
+			st.assume(f)
+		}
 		return r
 	case token.OR, token.XOR, token.AND_NOT:
 		if a.IsConst() && b.IsConst() && a.Val.Sign() >= 0 && b.Val.Sign() >= 0 {
@@ -410,6 +427,9 @@ func (c *FuncCtx) arith(st *State, op token.Token, a, b *Term, typ, rtyp types.T
 		nm := map[token.Token]string{token.OR: "bvor", token.XOR: "bvxor", token.AND_NOT: "bvandnot"}[op]
 		r := App(nm, SInt, a, b)
 		c.noteRange(st, r, typ)
+		for _, f := range bitTableFacts(nm, a, b, r) {
+			st.assume(f)
+		}
 		return r
 	}
 	panic(verr("unsupported operator %s at %s", op, c.prog.pos(at)))
@@ -976,4 +996,55 @@ func (c *FuncCtx) execSwitch(fr *frame, n *ast.SwitchStmt, st *State, k func(*St
 	} else {
 		run(st)
 	}
+}
+
+// noFloatAssign: the function under verification never assigns to a floating-point location
+// (the condition under which float comparisons may be named after their source text).
+func (c *FuncCtx) noFloatAssign() {
+	ast.Inspect(c.fi.Decl.Body, func(n ast.Node) bool {
+		as, ok := n.(*ast.AssignStmt)
+		if !ok {
+			return true
+		}
+		for _, l := range as.Lhs {
+			if t := c.info.TypeOf(l); t != nil {
+				if b, ok := t.Underlying().(*types.Basic); ok && b.Info()&types.IsFloat != 0 {
+					panic(verr("float assignment in a function whose float comparisons are abstracted, at %s", c.prog.pos(as)))
+				}
+			}
+		}
+		return true
+	})
+}
+
+var feqSafe = regexp.MustCompile(`[^A-Za-z0-9_.]`)
+
+// feqName: the symbol standing for the outcome of a float (in)equality test, named after its source text.
+func feqName(x, y ast.Expr) string {
+	return "feq$" + feqSafe.ReplaceAllString(exprString(x), "_") + "$" + feqSafe.ReplaceAllString(exprString(y), "_")
+}
+
+// bitTableFacts: the value of an uninterpreted bit operation on operands in 0..3 (the bit
+// arithmetic of flags and two-bit indices), as ground implications.
+func bitTableFacts(op string, a, b, r *Term) []*Term {
+	var out []*Term
+	for x := int64(0); x < 4; x++ {
+		for y := int64(0); y < 4; y++ {
+			var v int64
+			switch op {
+			case "bvand":
+				v = x & y
+			case "bvor":
+				v = x | y
+			case "bvxor":
+				v = x ^ y
+			case "bvandnot":
+				v = x &^ y
+			default:
+				return nil
+			}
+			out = append(out, Implies(And(Eq(a, ConstI(x)), Eq(b, ConstI(y))), Eq(r, ConstI(v))))
+		}
+	}
+	return out
 }
